@@ -416,9 +416,16 @@ CHECK = {
         "text": "Coq (Coquelicot is_derive): the entry-wise derivatives of Rz*Ry*Rx in each angle (dR_true) and of R*T; the faithful model of "
                 "SmartRotation3D's derivative members equals them plus Rz*Ry*E00 / Rz*E11*Rx / E22*Ry*Rx, a term that is never zero "
                 "(characterisation + refutation: open known finding, pinned by the repo's tests); the repaired 6x6 Jacobian of "
-                "operator*(Affine3d, Pose3D) is the derivative of the pose map (position block = R, angular block = derivatives of the "
-                "extracted angles), J*C*J^T is symmetric PSD, the original Jacobian is refuted at the identity transform; "
-                "computeEstimateCovariance = variance*A*(J^T J)^-1*A^T for diagonal A. The model runs against the real classes; an mpmath "
+                "operator*(Affine3d, Pose3D) is the derivative of the model's own pose map, entry by entry (C12_pose_jacobian: every rigid "
+                "transform, every pose off gimbal lock after transformation; position rows ordinary derivatives, angle rows as derivatives "
+                "modulo 2pi of the reported angles, the value being unique), on every chart of atan2: a general derivative theorem for "
+                "atan2 off its branch cut (C12_atan2_derivative, three half-plane charts) gives the angular block for the raw angles "
+                "wherever they are differentiable (C12_pose_jacobian_angular, any matrix l) and for the reported angles "
+                "(after between0And2Pi) wherever none is 0 (C12_pose_jacobian_angular_reported, covers the cut of atan2); the attached "
+                "covariance is J*C*J^T with that J and is symmetric PSD whenever C is (C12_pose_covariance), the original Jacobian is "
+                "refuted at the identity transform; "
+                "computeEstimateCovariance = variance*A*inv*A^T for diagonal A, and with the contract inv*(J^T J) = I of the stored inverse "
+                "A^-1*cov*A^-1*(J^T J) = variance*I (C12_ls_covariance_inverse_normal). The model runs against the real classes; an mpmath "
                 "oracle compares derivative matrices with the true derivatives (recognising exactly the characterised leftover, 1e-12) and the "
                 "attached covariance with J*C*J^T from 40-digit central differences of the pose map, cross-checked against central "
                 "differences of the implementation's own outputs; rational arithmetic for the solver covariance.",
@@ -427,5 +434,6 @@ CHECK = {
         "technique": "Coq proof over R (Coquelicot derivatives, ring/nsatz, sum algebra) + extracted-model correspondence run + mpmath/rational oracle",
     },
     "assumptions": ["theorems are over real arithmetic; floating-point behaviour is measured by the correspondence run and the oracle",
-                    "the Jacobian theorem is stated for the angles before normalisation to [0,2pi) (the normaliser is piecewise a shift)"],
+                    "where a reported angle is exactly 0 the [0,2pi) representative jumps by 2pi and no ordinary derivative exists: there the "
+                    "Jacobian theorem holds for the angle modulo 2pi (is_derive_mod2pi), elsewhere as an ordinary derivative"],
 }
